@@ -30,6 +30,10 @@ ASSUMPTIONS = [
     "contract violations other than 'frozen refuses modification' (duplicate category, reserved name, two "
     "placement options) are expected to be refused; if the code accepts one, the run stops comparing "
     "(counted as unspecified-accept) instead of raising an alarm, because the property does not state them",
+    "a refused operation must leave a *frozen* database unchanged (that is what refusing modification means); "
+    "whether a failed operation on an unfrozen database (duplicate category, failing spec iterable, ...) is atomic "
+    "is not stated by the property: if it leaves traces the run stops comparing (unspecified-partial-failure); "
+    "other databases must never move (isolation)",
     "spec objects are harness stubs carrying only the documented name attribute and a unique tag",
 ]
 
@@ -560,10 +564,19 @@ def execute(program):
                             new_db = fn(keep_categories=list(keep), exclude_categories=list(excl),
                                         keep_which=list(which), **kwcls)
                         except Exception as e:
-                            raise Violation('derived-db-first-class', op_index=opi, db=target,
-                                            observed='filtered_context raised ' + repr(e),
-                                            expected='a filtered database',
-                                            derived_depth=depth)
+                            if any(w not in KINDS for w in which):
+                                # keep_which "should be a subset of ['macros', 'environments', 'specials']":
+                                # refusing anything else is as legitimate as ignoring it
+                                stats.inc('fault-armed:contract-invalid-keep_which')
+                                stats.inc('fault-fired:contract-invalid-keep_which')
+                                outcome = 'rejected'
+                                new_db = None
+                            else:
+                                raise Violation('derived-db-first-class', op_index=opi, db=target,
+                                                observed='filtered_context raised ' + repr(e),
+                                                expected='a filtered database',
+                                                derived_depth=depth)
+                    if new_db is not None:
                         nm = Model()
                         for c, d in m.cats:
                             if keep and c not in keep:
@@ -705,12 +718,11 @@ def execute(program):
                     except Exception as e:
                         raised = e
                     if raised is None:
-                        # the operation never consumed the faulty iterable (e.g. refused earlier is
-                        # impossible here); the fault must surface as an exception
-                        raise Violation('failed-operation-leaves-db-unchanged', op_index=opi, db=target,
-                                        observed='operation succeeded although a supplied spec '
-                                                 'iterable failed', expected='an exception')
-                    if isinstance(raised, SimCollabError) or \
+                        # the operation did not trip over the faulty collaborator (it may be lazy, or
+                        # lenient about nameless specs): what the database holds now is not specified
+                        stats.inc('unspecified-accept:collaborator-' + mode)
+                        stop = True
+                    elif isinstance(raised, SimCollabError) or \
                        (mode == 'noattr' and isinstance(raised, AttributeError)):
                         stats.inc('fault-fired:collaborator-' + mode)
                     new_db = None
@@ -731,9 +743,19 @@ def execute(program):
                     continue
                 d = first_diff(snap_before, after[j])
                 if d:
-                    inv = 'failed-operation-leaves-db-unchanged' if (j == target and outcome == 'rejected') \
-                        else 'isolation'
-                    raise Violation(inv, op_index=opi, db=j, where=d[0], observed=d[2], expected=d[1])
+                    if j == target and outcome == 'rejected':
+                        if before[j].get('frozen'):
+                            raise Violation('frozen-refuses-modification', op_index=opi, db=j, where=d[0],
+                                            observed=d[2], expected=d[1])
+                        # a refused operation on an unfrozen database left traces: atomicity of
+                        # failures is not part of the property; stop comparing this history
+                        stats.inc('unspecified-partial-failure')
+                        stop = True
+                        break
+                    raise Violation('isolation', op_index=opi, db=j, where=d[0], observed=d[2], expected=d[1])
+            if stop:
+                trace.append([kind, 'unspecified-partial-failure'])
+                break
             # model agreement and model-free order, for every live database
             for j, (dbj, mj, _) in enumerate(live):
                 want = mj.snapshot(probes)
